@@ -97,9 +97,10 @@ theorem rotate_prefix {sl w fs} (I : Inv sl w fs) (k : Nat) (hk : k < (rotateSte
     simp only [List.foldl, applySeg] at hseg
     have F := I.frame.sameBut S I.cur_in
     show Good w.nf none (run fs [Step.sfmTmp w.cur w.fls])
-    refine good_b F (S.dirs ▸ I.cur_in) ?_ ?_ I.ids (Or.inl rfl)
+    refine good_b F (S.dirs ▸ I.cur_in) ?_ ?_ I.ids (Or.inl rfl) ⟨w.fls, ?_, fun _ hf => hf⟩
     · rw [hseg]; exact (inv_parsable I).2 hne
     · rw [hseg]; exact segOK_congr I.cur_ok rfl rfl
+    · rw [hseg]; show (fs.seg w.cur).sfm = _; rw [I.cur_sfm, if_neg hne]
   · -- .sfm replaced by the same record
     have hon : ∀ s ∈ [Step.sfmTmp w.cur w.fls, .sfmRename w.cur], onSeg w.cur s = true := by
       intro s hs; simp at hs; rcases hs with rfl | rfl <;> simp [onSeg]
@@ -108,9 +109,10 @@ theorem rotate_prefix {sl w fs} (I : Inv sl w fs) (k : Nat) (hk : k < (rotateSte
     simp only [List.foldl, applySeg] at hseg
     have F := I.frame.sameBut S I.cur_in
     show Good w.nf none (run fs [Step.sfmTmp w.cur w.fls, .sfmRename w.cur])
-    refine good_b F (S.dirs ▸ I.cur_in) ?_ ?_ I.ids (Or.inl rfl)
+    refine good_b F (S.dirs ▸ I.cur_in) ?_ ?_ I.ids (Or.inl rfl) ⟨w.fls, ?_, fun _ hf => hf⟩
     · rw [hseg]; rfl
     · rw [hseg]; exact segOK_congr I.cur_ok rfl rfl
+    · rw [hseg]; rfl
   · -- sealed; somewhere inside resetSegStore
     have P := preopen_rotate I
     have ht : ([Step.sfmTmp w.cur w.fls, .sfmRename w.cur, .segmetaAppend w.cur w.fls] ++ openSteps (w.cur + 1)).take (3 + j)
@@ -167,6 +169,7 @@ structure GoodH (w : W) (h : Hist) (k : Nat) (fs : FS) : Prop where
   complete : ∀ f, (f < w.nf ∨ f ∈ completedFrom w h k) → f ∈ visible fs
   fresh : ∀ s ∈ fs.dirs, s < nextSuffix fs
   untouched : ∀ s, s ∉ fs.dirs → fs.seg s = {}
+  prov : ∀ f, (f < w.nf ∨ f ∈ completedFrom w h k) → ∃ p ∈ metas fs, f ∈ p.2 ∧ f ∈ segVisible (fs.seg p.1)
 
 theorem crashFrom_good : ∀ (h : Hist) (sl : List (Nat × List Nat)) (w : W) (fs : FS) (k : Nat),
     Inv sl w fs → GoodH w h k (crashFrom w fs h k) := by
@@ -175,7 +178,7 @@ theorem crashFrom_good : ∀ (h : Hist) (sl : List (Nat × List Nat)) (w : W) (f
   | nil =>
     intro sl w fs k I
     have G : Good w.nf none fs := good_inv I
-    refine ⟨G.nodup, G.torn, ?_, ?_, G.fresh, G.untouched⟩
+    refine ⟨G.nodup, G.torn, ?_, ?_, G.fresh, G.untouched, ?_⟩
     · intro f hf
       rcases G.sound f hf with h | h
       · exact Or.inl h
@@ -183,6 +186,10 @@ theorem crashFrom_good : ∀ (h : Hist) (sl : List (Nat × List Nat)) (w : W) (f
     · intro f hf
       rcases hf with h | h
       · exact G.complete f h
+      · simp [completedFrom] at h
+    · intro f hf
+      rcases hf with h | h
+      · exact G.prov f h
       · simp [completedFrom] at h
   | cons c h ih =>
     intro sl w fs k I
@@ -197,7 +204,23 @@ theorem crashFrom_good : ∀ (h : Hist) (sl : List (Nat × List Nat)) (w : W) (f
       have hinf : inflightFrom w (c :: h) k = inflightFrom (next w c) h (k - (cmdSteps w c).length) := by
         simp only [inflightFrom, if_pos hk]
       rw [hcf]
-      refine ⟨G.nodup, G.torn, ?_, ?_, G.fresh, G.untouched⟩
+      have hstep : ∀ f, (f < w.nf ∨ f ∈ completedFrom w (c :: h) k) →
+          (f < (next w c).nf ∨ f ∈ completedFrom (next w c) h (k - (cmdSteps w c).length)) := by
+        intro f hf
+        rw [hcomp] at hf
+        rcases hf with h1 | h1
+        · left
+          cases c with
+          | fl ws => show f < w.nf + 1; omega
+          | ro => by_cases hne : w.fls = [] <;> simpa [next, hne] using h1
+        · rcases List.mem_append.1 h1 with h2 | h2
+          · cases c with
+            | fl ws =>
+              have : f = w.nf := by simpa [cmdFlush] using h2
+              left; show f < w.nf + 1; omega
+            | ro => cases h2
+          · right; exact h2
+      refine ⟨G.nodup, G.torn, ?_, ?_, G.fresh, G.untouched, fun f hf => G.prov f (hstep f hf)⟩
       · intro f hf
         rw [hcomp, hinf]
         rcases G.sound f hf with h1 | h1 | h1
@@ -239,7 +262,7 @@ theorem crashFrom_good : ∀ (h : Hist) (sl : List (Nat × List Nat)) (w : W) (f
         have hinf : inflightFrom w (Cmd.fl ws :: h) k = if 0 < k then some w.nf else none := by
           simp only [inflightFrom, if_neg hk]
         have G := flush_prefix I ws k hk'
-        refine ⟨G.nodup, G.torn, ?_, ?_, G.fresh, G.untouched⟩
+        refine ⟨G.nodup, G.torn, ?_, ?_, G.fresh, G.untouched, ?_⟩
         · intro f hf
           rcases G.sound f hf with h1 | h1
           · exact Or.inl h1
@@ -249,11 +272,16 @@ theorem crashFrom_good : ∀ (h : Hist) (sl : List (Nat × List Nat)) (w : W) (f
           rcases hf with h1 | h1
           · exact G.complete f h1
           · cases h1
+        · intro f hf
+          rw [hcomp] at hf
+          rcases hf with h1 | h1
+          · exact G.prov f h1
+          · cases h1
       | ro =>
         have hinf : inflightFrom w (Cmd.ro :: h) k = none := by
           simp only [inflightFrom, if_neg hk]
         have G := rotate_prefix I k hk'
-        refine ⟨G.nodup, G.torn, ?_, ?_, G.fresh, G.untouched⟩
+        refine ⟨G.nodup, G.torn, ?_, ?_, G.fresh, G.untouched, ?_⟩
         · intro f hf
           rcases G.sound f hf with h1 | h1
           · exact Or.inl h1
@@ -262,6 +290,11 @@ theorem crashFrom_good : ∀ (h : Hist) (sl : List (Nat × List Nat)) (w : W) (f
           rw [hcomp] at hf
           rcases hf with h1 | h1
           · exact G.complete f h1
+          · cases h1
+        · intro f hf
+          rw [hcomp] at hf
+          rcases hf with h1 | h1
+          · exact G.prov f h1
           · cases h1
 
 /-! ### the crash at step `k` of a whole history -/
@@ -339,5 +372,23 @@ theorem crashAfter_good (h : Hist) (k : Nat) :
       · exact Or.inr h1
     · intro f hf
       exact G.complete f (Or.inr hf)
+
+/-- metadata provenance at every cut `k` of every history: every completed flush is served from an adopted segment
+whose metadata record (segmeta.json line or running .sfm) was built from that flush -/
+theorem crashAfter_meta (h : Hist) (k : Nat) :
+    ∀ f ∈ completed h k, ∃ p ∈ metas (crashAfter h k), f ∈ p.2 ∧ f ∈ segVisible ((crashAfter h k).seg p.1) := by
+  by_cases hk : k < 3
+  · intro f hf
+    have h0 : k - 3 = 0 := by omega
+    simp [completed, h0, completedFrom_zero] at hf
+  · have hfs : crashAfter h k = crashFrom {} (run {} (openSteps 0)) h (k - 3) := by
+      show run {} ((openSteps 0 ++ stepsFrom {} h).take k) = _
+      rw [List.take_append, run_append, List.take_of_length_le (by simp [openSteps]; omega)]
+      exact run_take_stepsFrom h {} _ _
+    have I : Inv [] ({} : W) (run {} (openSteps 0)) := inv_open preopen_empty
+    have G := crashFrom_good h [] {} _ (k - 3) I
+    rw [← hfs] at G
+    intro f hf
+    exact G.prov f (Or.inr hf)
 
 end SigModel.Lemmas.C07
